@@ -2143,6 +2143,20 @@ func (interp *Interpreter) cfg(root *node, sc *scope, importPath, pkgName string
 				// Switch is empty
 				break
 			}
+			if n.kind == switchStmt && len(n.child) >= 2 {
+				// Check the type of case expressions against the switch tag.
+				tag := n.child[len(n.child)-2]
+				for _, c := range clauses {
+					if len(c.child) == 0 || c.lastChild().kind != caseBody {
+						continue
+					}
+					for _, e := range c.child[:len(c.child)-1] {
+						if err = check.caseExpr(e, tag); err != nil {
+							return
+						}
+					}
+				}
+			}
 			// Chain case clauses.
 			for i := l - 1; i >= 0; i-- {
 				c := clauses[i]
